@@ -132,18 +132,20 @@ PROPS = {
     },
     "C11": {
         "engine": "srv",
-        "tests": [{"name": "TestC11", "quick": {"checks": 20000, "shards": 2, "timeout": 1200}, "thorough": {"checks": 100000, "shards": 12}, "count_free": True, "env": {"VERIF_ENUM": 1}}],
+        "tests": [{"name": "TestC11", "quick": {"checks": 20000, "shards": 2, "timeout": 1200}, "thorough": {"checks": 100000, "shards": 12}, "count_free": True, "env": {"VERIF_ENUM": 1}},
+                  {"name": "TestC11Hist", "quick": {"checks": 1500, "shards": 2}, "thorough": {"checks": 8000, "shards": 8}}],
         "fuzz": [{"name": "FuzzReply4", "seconds": 60}],
-        "rule": "every run enumerates all 256 opcodes x 257 message-type values (incl. absent) on a fixed relayed body, then rapid draws structured DHCPv4 datagrams (see C01; 20% byte-mutated) under a chain that is empty, synthetic (pass / NAK-maker / dropper) or a random stateless built-in chain, bound or unbound. Oracle: the harness classifies the datagram (library parse = definition of unparseable; opcode; message type); anything but a parseable BOOTREQUEST of type DISCOVER/REQUEST must produce no output; an output (UDP payload, or the DHCP payload decoded from the layer-2 frame) must be a BOOTREPLY with the request's xid, htype, chaddr, flags, giaddr, byte-equal options 82 and 61, OFFER for DISCOVER and ACK/NAK for REQUEST; with a chain that cannot drop exactly one output exists (UDP paths). Non-trivial: parseable datagram. Distinct: FNV-64 of the case JSON.",
+        "rule": "every run enumerates all 256 opcodes x 257 message-type values (incl. absent) on a fixed relayed body, then rapid draws structured DHCPv4 datagrams (see C01; 20% byte-mutated) under a chain that is empty, synthetic (pass / NAK-maker / dropper) or a random stateless built-in chain, bound or unbound. Oracle: the harness classifies the datagram (library parse = definition of unparseable; opcode; message type); anything but a parseable BOOTREQUEST of type DISCOVER/REQUEST must produce no output; an output (UDP payload, or the DHCP payload decoded from the layer-2 frame) must be a BOOTREPLY with the request's xid, htype, chaddr, flags, giaddr, byte-equal options 82 and 61, OFFER for DISCOVER and ACK/NAK for REQUEST; with a chain that cannot drop exactly one output exists (UDP paths). TestC11Hist applies the same oracle to every datagram of C01-style histories under chains of built-in plugins that include the stateful ones (small ranges, static leases), so that what plugins do on rare paths (exhaustion) is covered. Non-trivial: parseable datagram (TestC11); at least one datagram of the history answered (TestC11Hist). Distinct: FNV-64 of the case JSON.",
         "assumptions": ["an unbound listener always receives interface information (listen4/listen6 enable it on unbound sockets), so (unbound, no control message) is never generated",
                         "replies are observed at the capture hook: the WriteTo call of the listener and the serialised Ethernet frame of sendEthernet; the sockets themselves are not exercised",
                         "the layer-2 path needs an interface with a 6-byte hardware address; it is looked up at run time"],
     },
     "C12": {
         "engine": "srv",
-        "tests": [{"name": "TestC12", "quick": {"checks": 20000, "shards": 2}, "thorough": {"checks": 100000, "shards": 12}, "count_free": True}],
+        "tests": [{"name": "TestC12", "quick": {"checks": 20000, "shards": 2}, "thorough": {"checks": 100000, "shards": 12}, "count_free": True},
+                  {"name": "TestC12Hist", "quick": {"checks": 1500, "shards": 2}, "thorough": {"checks": 8000, "shards": 8}}],
         "fuzz": [{"name": "FuzzReply6", "seconds": 60}],
-        "rule": "every run enumerates message type 0..255 x client-id present/absent x rapid-commit present/absent x relay depth 0..2, then rapid draws structured DHCPv6 datagrams (see C01; 17% byte-mutated) x source address (link-local, global, loopback, ULA) x source port x bound/unbound listener x receiving interface index, with an empty chain. Oracle: output exists iff the innermost message can be extracted, has a supported type and a client id and the outermost layer (if any) is a Relay-Forward; the answer is ADVERTISE for SOLICIT, REPLY carrying Rapid Commit for SOLICIT with it, REPLY otherwise, same transaction id, byte-equal client id; relayed: exactly n Relay-Reply layers (read with the harness's own walker) mirroring link-address, peer-address and Interface-ID per layer; destination = source address and port; link-local source => control message pinned to the bound, else the receiving interface. Non-trivial: a reply was produced or the datagram was relayed. Distinct: FNV-64 of the case JSON.",
+        "rule": "every run enumerates message type 0..255 x client-id present/absent x rapid-commit present/absent x relay depth 0..2, then rapid draws structured DHCPv6 datagrams (see C01; 17% byte-mutated) x source address (link-local, global, loopback, ULA) x source port x bound/unbound listener x receiving interface index, with an empty chain. Oracle: output exists iff the innermost message can be extracted, has a supported type and a client id and the outermost layer (if any) is a Relay-Forward; the answer is ADVERTISE for SOLICIT, REPLY carrying Rapid Commit for SOLICIT with it, REPLY otherwise, same transaction id, byte-equal client id; relayed: exactly n Relay-Reply layers (read with the harness's own walker) mirroring link-address, peer-address and Interface-ID per layer; destination = source address and port; link-local source => control message pinned to the bound, else the receiving interface. TestC12Hist applies the same oracle to every datagram of C01-style histories under chains of built-in DHCPv6 plugins (small prefix pools, static leases). Non-trivial: a reply was produced or the datagram was relayed (TestC12); at least one datagram of the history answered (TestC12Hist). Distinct: FNV-64 of the case JSON.",
         "assumptions": ["an unbound listener always receives interface information (listen4/listen6 enable it on unbound sockets), so (unbound, no control message) is never generated",
                         "replies are observed at the capture hook: the WriteTo call of the listener and the serialised Ethernet frame of sendEthernet; the sockets themselves are not exercised",
                         "the layer-2 path needs an interface with a 6-byte hardware address; it is looked up at run time"] + ["inner relay layers are generated as Relay-Forward; only the outermost may be a Relay-Reply", "absence of pinning for global sources is not asserted"],
@@ -168,8 +170,9 @@ PROPS = {
     },
     "C16": {
         "engine": "srv",
-        "tests": [{"name": "TestC16", "race": True, "quick": {"checks": 24, "shards": 2, "timeout": 1500}, "thorough": {"checks": 60, "shards": 8, "timeout": 3000}, "env": {"VERIF_MAX_WATCHERS": 24}, "shrinktime": "5s"}],
-        "rule": "rapid draws a scenario: DHCPv4 chain (server_id, file, range, dns, router, netmask, lease_time), DHCPv6 chain (server_id, file, prefix, dns) or both at once; 1..3 static and 2..8 dynamic clients, a range/pool up to two smaller than the dynamic client set, 8..32 [thorough ..64] goroutines each sending 3..12 datagrams (same-client storms), optionally the file plugin with autorefresh while a writer goroutine rewrites the lease files in place; every datagram goes through Capture.Feed (buffer from the pool, parse, recycle, chain) on a -race build. Oracles: (1) the Go race detector (any report is a violation); (2) cross-talk: the reply returned for request xid X must carry X and X's chaddr/client id; (3) invariants every serial order satisfies: one address per dynamic client, one client per address, in range, refusal implies the range is full at the end, static clients get the old or the new mapping, one prefix per client for hint-less requests, no prefix delegated to two clients. Non-trivial: at least two datagrams were in flight at once (measured). Distinct: FNV-64 of the case JSON.",
+        "tests": [{"name": "TestC16", "race": True, "quick": {"checks": 24, "shards": 2, "timeout": 1500}, "thorough": {"checks": 60, "shards": 8, "timeout": 3000}, "env": {"VERIF_MAX_WATCHERS": 24}, "shrinktime": "5s"},
+                  {"name": "TestC16Serve", "race": True, "quick": {"checks": 60, "shards": 1, "timeout": 1500}, "thorough": {"checks": 300, "shards": 4, "timeout": 3000}, "shrinktime": "5s"}],
+        "rule": "rapid draws a scenario: DHCPv4 chain (server_id, file, range, dns, router, netmask, lease_time), DHCPv6 chain (server_id, file, prefix, dns) or both at once; 1..3 static and 2..8 dynamic clients, a range/pool up to two smaller than the dynamic client set, 8..32 [thorough ..64] goroutines each sending 3..12 datagrams (same-client storms), optionally the file plugin with autorefresh while a writer goroutine rewrites the lease files in place; every datagram goes through Capture.Feed (buffer from the pool, parse, recycle, chain) on a -race build. TestC16Serve runs the real Serve loops (ReadFrom into a pooled buffer, reslice, one goroutine per datagram) on loopback UDP sockets: 2..8 client sockets send bursts of 2..12 datagrams of varying length, outputs are captured at WriteTo; every recorded reply must belong to exactly one request (xid <-> chaddr / client id) and a datagram still unanswered after the burst must be answered when sent again alone. Oracles: (1) the Go race detector (any report is a violation); (2) cross-talk: the reply returned for request xid X must carry X and X's chaddr/client id; (3) invariants every serial order satisfies: one address per dynamic client, one client per address, in range, refusal implies the range is full at the end, static clients get the old or the new mapping, one prefix per client for hint-less requests, no prefix delegated to two clients. Non-trivial: at least two datagrams were in flight at once (measured). Distinct: FNV-64 of the case JSON.",
         "assumptions": ["interleavings are sampled by the Go scheduler (GOMAXPROCS = cores, yields injected in front of the chain); the race detector flags unsynchronised access pairs even when the bad interleaving did not occur",
                         "requests are relayed (giaddr set) so replies take the UDP path", "at most 24 autorefresh watchers per process (inotify instances are never released by the plugin)"],
     },
